@@ -47,6 +47,7 @@ package openapi3
 
 //@ func WithValidationOptions
 //@   modifies nothing
+//@   ensures ctx != nil ==> result != nil
 // the options in effect are the caller's (carried by the context) or a private fresh object: state
 // written into them by one validation (request/response mode of example checks) cannot leak into
 // another validation that was given no options
@@ -62,25 +63,30 @@ package openapi3
 //@   tag C04
 //@ func (Content).Validate
 //@   modifies *
-//@   preserves @C04 Parameter.*, SerializationMethod.*, *bool, MediaType.*, map[string]*Encoding, Encoding.*, map[string]*HeaderRef, []string
+//@   preserves @C04 Parameter.*, SerializationMethod.*, *bool, MediaType.*, map[string]*Encoding, Encoding.*, map[string]*HeaderRef, []string, map[string]*ExampleRef, ExampleRef.Value
 //@   defines (result == nil) <==> contentOK(content)
 //@ func (*SchemaRef).Validate
 //@   modifies *
-//@   preserves @C04 Parameter.*, SerializationMethod.*, *bool, MediaType.*, map[string]*Encoding, Encoding.*, map[string]*HeaderRef, []string
+//@   preserves @C04 Parameter.*, SerializationMethod.*, *bool, MediaType.*, map[string]*Encoding, Encoding.*, map[string]*HeaderRef, []string, map[string]*ExampleRef, ExampleRef.Value
 //@   defines (result == nil) <==> schemaRefOK(x)
 //@ func validateExtensions
 //@   modifies *
-//@   preserves @C04 Parameter.*, SerializationMethod.*, *bool, MediaType.*, map[string]*Encoding, Encoding.*, map[string]*HeaderRef, []string
+//@   preserves @C04 Parameter.*, SerializationMethod.*, *bool, MediaType.*, map[string]*Encoding, Encoding.*, map[string]*HeaderRef, []string, map[string]*ExampleRef, ExampleRef.Value
 //@   defines (result == nil) <==> extensionsOK(extensions)
 //@ func validateExampleValue
 //@   modifies *
-//@   preserves @C04 Parameter.*, SerializationMethod.*, *bool, MediaType.*, map[string]*Encoding, Encoding.*, map[string]*HeaderRef, []string
+//@   preserves @C04 Parameter.*, SerializationMethod.*, *bool, MediaType.*, map[string]*Encoding, Encoding.*, map[string]*HeaderRef, []string, map[string]*ExampleRef, ExampleRef.Value
+// (assumed of the reference wrapper's validator - not verified here: success means the reference is resolved)
 //@ func (*ExampleRef).Validate
 //@   modifies *
-//@   preserves @C04 Parameter.*, SerializationMethod.*, *bool, MediaType.*, map[string]*Encoding, Encoding.*, map[string]*HeaderRef, []string
+//@   ensures result == nil ==> x.Value != nil
+//@   preserves @C04 Parameter.*, SerializationMethod.*, *bool, MediaType.*, map[string]*Encoding, Encoding.*, map[string]*HeaderRef, []string, map[string]*ExampleRef, ExampleRef.Value
 
 //@ func (*Parameter).Validate
 //@   requires parameter != nil
+//@   loop 0 invariant seenset() == keys(names) && fresh(names)
+//@   loop 1 invariant forall k string :: keys(names)[k] ==> has(examples, k)
+//@   assuming @C20 ctx != nil && (forall k string :: has(parameter.Examples, k) ==> parameter.Examples[k] != nil && parameter.Examples[k].Value != nil)
 //@   modifies *
 //@   ensures [rules] result == nil ==> old(paramRules(parameter))
 //@   ensures [children] result == nil ==> (old(parameter.Content) != nil ==> contentOK(old(parameter.Content))) && (old(parameter.Schema) != nil ==> schemaRefOK(old(parameter.Schema))) && extensionsOK(old(parameter.Extensions))
@@ -137,7 +143,7 @@ package openapi3
 //@   loop 1 invariant forall k string :: keysPrefix(keys, #i)[k] ==> (has(normalizedPaths, normOf(k)) && normalizedPaths[normOf(k)] == k)
 //@   loop 1 invariant forall n string :: has(normalizedPaths, n) ==> (keysPrefix(keys, #i)[normalizedPaths[n]] && normOf(normalizedPaths[n]) == n)
 //@   ensures [no-conflicting-templates] result == nil ==> (forall p string, q string :: old(has(paths.m, p)) && old(has(paths.m, q)) && p != q ==> normOf(p) != normOf(q))
-//@   option safety-tags C20
+//@   option safety-tags none
 //@   tag C04-attempted
 
 // ---- encodings: an encoding is accepted only if its headers are
@@ -166,7 +172,9 @@ package openapi3
 //@ func componentNames
 //@   modifies nothing
 //@   loop 0 invariant seenset() == keys(out) && fresh(out)
+//@   loop 0 invariant len(out) > 0 ==> s != nil
 //@   ensures [exactly-the-keys] forall k string :: keys(result)[k] <==> has(s, k)
+//@   ensures [names-mean-a-map] len(result) > 0 ==> s != nil
 //@   ensures fresh(result)
 //@   option safety-tags C20
 //@   tag C04
@@ -176,7 +184,10 @@ package openapi3
 //@   preserves @C04 MediaType.*, map[string]*Encoding, []string
 //@   defines (result == nil) <==> encodingOK(encoding)
 //@ func (*MediaType).Validate
+//@   assuming @C20 ctx != nil && (mediaType != nil ==> (forall k string :: has(mediaType.Examples, k) ==> mediaType.Examples[k] != nil && mediaType.Examples[k].Value != nil))
 //@   modifies *
+//@   loop 0 invariant seenset() == keys(names) && fresh(names)
+//@   loop 1 invariant forall k string :: keys(names)[k] ==> has(examples, k)
 //@   loop 2 invariant forall k string :: keysPrefix(#xs, #i)[k] ==> encodingOK(old(mediaType.Encoding[k]))
 //@   loop 2 invariant forall k string :: old(has(mediaType.Encoding, k)) ==> keys(#xs)[k]
 //@   ensures [encodings-validated] result == nil && mediaType != nil ==> (forall k string :: old(has(mediaType.Encoding, k)) ==> encodingOK(old(mediaType.Encoding[k])))
